@@ -27,6 +27,9 @@ def make_layer(rng, n):
     import crystals
     from ase.spacegroup import crystal
     a = float(rng.uniform(3.2, 4.6))
+    if rng.random() < 0.3:
+        a = float(rng.uniform(5.4, 6.6))      # in-plane parameters longer than the symmetry-breaking vacuum of a thin layer:
+                                              # the standardised cell then has the layer normal on its first or second axis
     b = a * float(rng.uniform(1.15, 1.35))
     s = crystals.system_of(n)
     cpar = 20.0
@@ -245,6 +248,40 @@ def run(ctx):
             continue
         seen.add(key)
         ctx.finding("layer:" + key, "layer of group %s: %s" % (b["group"], b["complaints"][0]), {"kind": "failing-input", "case": b})
+    if broken and not ctx.findings:
+        # directed search: the same layer given once with a non-periodic vector as long as an in-plane lattice parameter (a cell
+        # spglib could mistake for a more symmetric 3D lattice if the vacuum were not normalised) and once with 15 A
+        drng = np.random.default_rng(ctx.seed + 1111)
+        tried = 0
+        for k2 in range(ctx.n(60, 400)):
+            grp = [123, 47, 83, 99, 25, 10, 65, 89, 111, 115][k2 % 10]
+            at = make_layer(drng, grp)
+            if at is None or at.cell.cellpar()[0] < 5.0:
+                continue
+            cp = at.cell.cellpar()
+            ext = np.ptp(at.get_positions()[:, 2])
+            if min(abs(cp[0] - max(5.0, 3 * ext)), abs(cp[1] - max(5.0, 3 * ext))) < 0.05:
+                continue
+            tried += 1
+            res = []
+            for clen in (cp[int(drng.integers(0, 2))] + float(drng.uniform(-0.2, 0.2)), 15.0):
+                b = at.copy()
+                cell = np.array(b.get_cell())
+                cell[2] = cell[2] / np.linalg.norm(cell[2]) * max(clen, ext + 1.0)
+                b.set_cell(cell, scale_atoms=False)
+                try:
+                    res.append((b, observe(b, 1.0)[2]))
+                except Exception as e:  # noqa
+                    res.append((b, {"exception": "%s: %s" % (type(e).__name__, str(e)[:100])}))
+            (b1, o1), (b2, o2) = res
+            diff = [k_ for k_ in o1 if k_ != "inplane" and o1.get(k_) != o2.get(k_)]
+            if "inplane" in o1 and "inplane" in o2 and not np.allclose(o1["inplane"], o2["inplane"], atol=2e-3):
+                diff.append("inplane")
+            if diff:
+                ctx.finding("layer:%s:vacuum-dependent %s" % (grp, diff[0]), "layer of group %s: %s depends on the amount of vacuum (%s vs %s)" % (grp, diff[0], str(o1.get(diff[0]))[:50], str(o2.get(diff[0]))[:50]),
+                            {"kind": "failing-input", "case": {"group": grp, "complaints": ["%s differs" % d for d in diff], "atoms": crystals.atoms_to_json(b1), "other": crystals.atoms_to_json(b2)}})
+                break
+        ctx.coverage["directed_vacuum_pairs"] = tried
     if broken and not ctx.findings:
         ctx.finding("unproved", "proof/correspondence broken, no failing layer found", {"kind": "broken-obligation", "broken": broken}, found_input=False)
     ctx.coverage["broken"] = [{"what": k_, "info": i} for k_, i in broken]
